@@ -273,8 +273,6 @@ def coded_in_configured_width(ctx, tk):
     what = "codes passed with is_coded=True are in the configured index dtype (no silently promoting numpy reduction in their derivation)"
     n_sites = 0
     for q, f in sorted(ctx.program.funcs.items()):
-        if f.module.short != "raggedshape":
-            continue
         fa = ctx.fa(f)
         for n, c in find_calls(fa, lambda c: any(k_ == "is_coded" and is_const(v, True) for k_, v in c.a[2]) and c.a[1]):
             n_sites += 1
@@ -285,11 +283,19 @@ def coded_in_configured_width(ctx, tk):
                     nm = (attr_chain(x.a[0]) or ("",))[-1]
                     if nm in PROMOTING and "dtype" not in dict(x.a[2]) and "out" not in dict(x.a[2]):
                         promoting.append(x)
+            # a freshly allocated code buffer carries the configured dtype, not the dtype some other array happens to have
+            for x in walk(codes):
+                if np_call(x, {"zeros", "empty", "ones", "full", "zeros_like", "empty_like"}):
+                    dt = dict(x.a[2]).get("dtype")
+                    ok_dt = dt is not None and (attr_chain(dt) or ("",))[-1] == "_dtype"
+                    if dt is not None and not ok_dt and dt.k == "attr" and dt.a[1] == "dtype":
+                        promoting.append(x)
             recast = any(x.k == "call" and x.a[0].k == "attr" and x.a[0].a[1] == "astype" and x.a[1] and (attr_chain(x.a[1][0]) or ("",))[-1] == "_dtype" for x in alts(codes)) or \
                 any(np_call(x, {"asarray", "asanyarray", "array"}) and (attr_chain(dict(x.a[2]).get("dtype")) or ("",))[-1] == "_dtype" for x in alts(codes) if x.k == "call" and dict(x.a[2]).get("dtype") is not None)
             ctx.decide("C19.f", f, what, False if (promoting and not recast) else True,
-                       "`%s` is part of the codes: its result is int64 whatever the index width, so under 32-bit indices the coded array is reinterpreted as twice as many "
-                       "32-bit numbers (garbage starts and lengths)" % (promoting[0] if promoting else "",), node=c.node, key="coded:%s" % f.name, engine="KB")
+                       "`%s` is part of the codes: its dtype is not tied to the configured index width (a promoting reduction, or a buffer typed after another array), so under "
+                       "32-bit indices the coded array can be 64-bit and is then reinterpreted as twice as many 32-bit numbers" % (promoting[0] if promoting else "",),
+                       node=c.node, key="coded:%s" % f.name, engine="KB")
     if not n_sites:
         ctx.unknown("C19.f", VB + "__init__", what, "no coded construction found", engine="KB")
 
